@@ -72,6 +72,10 @@ type World struct {
 	lastUsage     uint32
 	lastUsageData []byte
 	ssidIdx       map[[8]byte][2]int
+	otherTags     map[uint32]int
+	EvilCommits   map[string]int
+	EvilRs        map[string]int
+	EvilValues    map[int]*big.Int
 	// MaxCallMs is the slowest API call seen.
 	MaxCallMs float64
 	TextGen   func(id int) []byte
@@ -102,7 +106,7 @@ func DSAKey(name string) (*otr3.DSAPrivateKey, *ref.DSAPriv) {
 }
 
 func New(seed uint64, trace io.Writer) *World {
-	w := &World{Seed: seed, Reg: NewRegistry(), P: map[string]*Party{}}
+	w := &World{Seed: seed, Reg: NewRegistry(), P: map[string]*Party{}, EvilCommits: map[string]int{}, EvilRs: map[string]int{}, EvilValues: map[int]*big.Int{}}
 	if trace != nil {
 		w.Trace = bufio.NewWriterSize(trace, 1<<20)
 	}
@@ -408,7 +412,7 @@ func errClass(err error) string {
 func (w *World) record(ev M, p *Party, cr callResult, out []M, err error) M {
 	ev["p"] = p.Name
 	ev["i"] = w.N + 1
-	for k, v := range map[string]interface{}{"plain": 0, "hi": false, "np": 0, "text": 0, "prs": false} {
+	for k, v := range map[string]interface{}{"plain": 0, "hi": false, "np": 0, "text": 0, "prs": false, "atk": ""} {
 		if _, ok := ev[k]; !ok {
 			ev[k] = v
 		}
@@ -504,8 +508,25 @@ func (w *World) Send(p *Party, text int) M {
 	return w.record(ev, p, cr, w.emit(p, out), err)
 }
 
+// ReceiveAttack delivers attacker-made bytes to p; what p answers goes nowhere.
+func (w *World) ReceiveAttack(p *Party, raw [][]byte, name string) M {
+	wm := &WireMsg{ID: len(w.Wire) + 1, From: p.Peer, To: p.Name, Raw: raw}
+	wm.Abs = w.Abs(raw, p.Peer, p.Name)
+	if hr, ok := wm.Abs["hashraw"].([]byte); ok {
+		wm.HashRaw = hr
+		delete(wm.Abs, "hashraw")
+	}
+	wm.Abs["id"] = wm.ID
+	w.Wire = append(w.Wire, wm)
+	return w.receive(p, wm, true, name)
+}
+
 // Receive hands a wire message (all fragments in order) to p.Receive.
 func (w *World) Receive(p *Party, wm *WireMsg) M {
+	return w.receive(p, wm, false, "")
+}
+
+func (w *World) receive(p *Party, wm *WireMsg, sink bool, atk string) M {
 	var out []otr3.ValidMessage
 	var plain otr3.MessagePlaintext
 	var err error
@@ -546,9 +567,16 @@ func (w *World) Receive(p *Party, wm *WireMsg) M {
 			pid = -4 // non-nil but empty
 		}
 	}
-	ev := M{"ev": "Recv", "m": wm.Abs, "plain": pid, "prs": prs, "np": len(plains), "hi": hi}
+	ev := M{"ev": "Recv", "m": wm.Abs, "plain": pid, "prs": prs, "np": len(plains), "hi": hi, "atk": atk}
 	if w.KeepRaw {
 		ev["plainraw"] = hex.EncodeToString(plain)
+	}
+	if sink {
+		peer := w.P[p.Peer]
+		n := len(peer.Queue)
+		outs := w.emit(p, out)
+		peer.Queue = peer.Queue[:n]
+		return w.record(ev, p, cr, outs, err)
 	}
 	return w.record(ev, p, cr, w.emit(p, out), err)
 }
